@@ -6,11 +6,12 @@ def _trivial(inp, out):
 PROP = dict(
     model_args=[],
     trivial=_trivial,
+    cases_per_shard=40,
     rule='PTN texts: Render of generated games (sizes 3..8; random legal playouts of 0..all plies under 6 policies, a third played to the '
          'end of the game; start from a TPS tag in a quarter of them, tags in either order, extra/duplicate/missing/out-of-range Size tags, '
          'mismatching or malformed TPS; 8 move-numbering modes incl. none, every move, random, drifting, restarted; comments with braces, '
          'brackets, quotes, bytes >= 0x80 at any place; annotations; results anywhere; appended illegal or off-board moves; records that go on '
-         'after the game end; BOM in a third), each with PositionAtMove(n, colour) for n = 0, every marker present and 1..max+2, both colours, '
+         'after the game end; BOM in a third) and directed end-game records (TPS tag of a populated, nearly finished board with move counter 1..3 incl. the opening-rule case, sizes 3..8 in turn, game over 1..2*size plies into the file, 1..10 further moves after the end, occasionally a Size tag contradicting the TPS), each with PositionAtMove(n, colour) for n = 0, every marker present and 1..max+2, both colours, '
          'NoColor and negative n; plus mutations of those texts (cut inside a comment, truncated, bytes overwritten, slices deleted/duplicated), '
          'a fixed list of corner cases and random strings over the PTN alphabet. non-trivial = text that parses; distinct = distinct inputs',
     assumptions=['tokens shorter than bufio.Scanner\'s 64 KiB limit (longer ones are a Scanner error, not modelled)',
@@ -21,8 +22,9 @@ PROP = dict(
 MANIFEST = dict(
     text="Coq theorems about the code-shaped model of ptn/ptn.go and ptn/iterator.go: the look-ahead Iterator latches (iterator_stops), "
          "PositionAtMove equals a 15-line specification walk for every game, move number and colour (position_at_move_spec), parsing the "
-         "rendering of a syntactically well-formed game gives the game back, with or without BOM (ptn_render_parse), and parsing/replaying "
-         "never panics (ptn_file_total, also used by C13). The model is run against ParsePTN/Render/InitialPosition/Iterator/PositionAtMove on "
+         "rendering of a syntactically well-formed game gives the game back, with or without BOM (ptn_render_parse), ParsePTN never panics on any "
+         "byte string (parse_ptn_total) and InitialPosition/Iterator/PositionAtMove never panic from any start position, TPS positions with "
+         "arbitrary stacks included (ptn_file_total_partial: the TPS parser's own totality is a premise; also used by C13). The model is run against ParsePTN/Render/InitialPosition/Iterator/PositionAtMove on "
          "generated and mutated game texts, and an independent Go oracle (naive walk over the generated game with the rules oracle and DFS "
          "road search) judges the implementation's answers directly.",
     ref='5.12', technique='Coq proof (iterator simulation, tokeniser round trip) + extracted-model/implementation differential + Go replay oracle',
